@@ -654,7 +654,9 @@ class DecimalRange(Range):
                             # Handle "...".
                             # TODO: Handle "..." same as ""?
                             raise errors.InterfaceError("ellipsis (...) must be preceded and/or succeeded by number")
-
+                        else:
+                            # Handle "".
+                            range_item = None
                     else:
                         assert ellipsis_found
                         # Handle "...y".
